@@ -80,6 +80,7 @@ type c01Cfg struct {
 	rf      int
 	za      bool
 	timeout int // seconds
+	excl    []string // cfg.ExcludedZones (nil: none)
 }
 
 func (c c01Cfg) String() string {
@@ -87,7 +88,15 @@ func (c c01Cfg) String() string {
 	if c.za {
 		za = "1"
 	}
-	return fmt.Sprintf("%d,%s,%d", c.rf, za, c.timeout)
+	s := fmt.Sprintf("%d,%s,%d", c.rf, za, c.timeout)
+	if len(c.excl) > 0 {
+		ex := make([]string, len(c.excl))
+		for i, z := range c.excl {
+			ex[i] = showStr(z)
+		}
+		s += "," + strings.Join(ex, "|")
+	}
+	return s
 }
 
 // c01Built is a real ring built from a relative descriptor.
@@ -110,7 +119,7 @@ func c01Build(cfg c01Cfg, rel *ring.Desc) *c01Built {
 		abs.Ingesters[id] = i
 	}
 	rc := ring.Config{HeartbeatTimeout: time.Duration(cfg.timeout) * time.Second, ReplicationFactor: cfg.rf,
-		ZoneAwarenessEnabled: cfg.za, SubringCacheDisabled: true}
+		ZoneAwarenessEnabled: cfg.za, SubringCacheDisabled: true, ExcludedZones: append([]string(nil), cfg.excl...)}
 	// A third of the rings are not built fresh: the client first holds a predecessor content (an
 	// instance more or less, a token hand-over that leaves the merged token list identical, a zone
 	// move) and is then updated to the case's content, as a long-lived client would be. The answer
@@ -440,6 +449,12 @@ func runC01(e *env) {
 			d := c01GenDesc(r, g)
 			if cfg.rf > len(d.Ingesters) && r.chance(2, 3) {
 				cfg.rf = 1 + r.intn(len(d.Ingesters))
+			}
+			if r.chance(1, 8) { // cfg.ExcludedZones: instances of these zones are dropped before the ring is indexed
+				cfg.excl = []string{pick(r, g.zones)}
+				if r.chance(1, 3) {
+					cfg.excl = append(cfg.excl, pick(r, []string{"a", "b", "zz-unused"}))
+				}
 			}
 			b := c01Build(cfg, d)
 			keys := c01Keys(r, b.rel, 3)
